@@ -686,6 +686,11 @@ class Evaluator:
             raise Undecided(f'{names[0]} on {a.cls.name}')
         if isinstance(a, EnumVal) and isinstance(op, ast.LShift):
             raise Undecided('enum << x')
+        if isinstance(op, ast.RShift) and isinstance(a, SymObj) and isinstance(b, (EnumVal, SymObj)):
+            # an unknown quantity read in a unit: a symbol of its own
+            return Scalar(A.sym(f'{a.path} >> {b.name if isinstance(b, EnumVal) else b.path}'))
+        if isinstance(op, ast.LShift) and isinstance(a, SymObj):
+            return a
         if isinstance(op, (ast.BitOr, ast.BitAnd)):
             x, y = self.scalar(a), self.scalar(b)
             if x.is_const() and y.is_const():
